@@ -306,9 +306,20 @@ type renderTarget struct {
 	render   func() (string, error)
 	renderTo func(io.Writer) error
 	wr       *wrapper
+	tbl      int // the table rendered, when the operation names it directly (0: the scenario's first table)
 }
 
 func (w *world) target(op M) renderTarget {
+	tg := w.target0(op)
+	if _, ok := op["t"]; ok {
+		if _, isw := op["w"]; !isw {
+			tg.tbl = opInt(op, "t")
+		}
+	}
+	return tg
+}
+
+func (w *world) target0(op M) renderTarget {
 	if _, ok := op["w"]; ok {
 		wr := w.wrapperOf(opInt(op, "w"))
 		return renderTarget{kind: wr.kind, render: wr.rt.Render, renderTo: wr.rt.RenderTo, wr: wr}
@@ -514,10 +525,22 @@ func (w *world) referenceOutput(tg renderTarget, h M) (status, text string) {
 	ref := newWorld()
 	ref.facets = map[string]bool{}
 	ref.exec(M{"op": "newtable", "via": "core"})
+	nt := 0
+	for _, op := range w.history {
+		if opStr(op, "op") == "newtable" {
+			if nt++; nt > 1 {
+				// a scenario with further tables: the build operations name their table by index
+				ref.exec(M{"op": "newtable", "via": "core"})
+			}
+		}
+	}
 	for _, op := range w.history {
 		if buildOps[opStr(op, "op")] {
 			ref.exec(cloneJSON(op).(map[string]interface{}))
 		}
+	}
+	if tg.tbl > 1 {
+		return freshRender(tg, ref.table(tg.tbl))
 	}
 	return freshRender(tg, ref.table(1))
 }
